@@ -405,6 +405,9 @@ func tokenCase(w *bufio.Writer, r *u.Rng, idx int, g1, g2 *handshake.TokenGenera
 			if out.Kind == 3 && out.AddrVerified && isRetry && (!out.HasRSCID || !bytes.Equal(out.ODCID, odcid) || !bytes.Equal(out.RSCID, rscid)) {
 				monfail("token/server-retry-cids", "connection created from a Retry token does not get the token's connection IDs")
 			}
+			if out.Kind == 3 && out.AddrVerified && !isRetry && (out.HasRSCID || !bytes.Equal(out.ODCID, dcid) || out.RTT != int64(time.Duration(rtt.Microseconds())*time.Microsecond)) {
+				monfail("token/server-newtoken-fields", "connection created from a NEW_TOKEN token: original DCID must be the packet's, no Retry SCID, RTT the token's")
+			}
 			if isRetry && !valid && out.Kind != 1 {
 				monfail("token/invalid-retry-not-rejected", "an invalid/expired Retry token is not answered with INVALID_TOKEN")
 			}
